@@ -83,9 +83,9 @@ def parseSum : Nat → List Tok → Option (AExpr × List Tok)
       | none => none
 end
 
-/-- the whole token list must be consumed -/
+/-- the whole token list must be consumed (the fuel is generous: `Lemmas/Arith.lean` shows `7 * nodes + 2` suffices) -/
 def parseA (ts : List Tok) : Option AExpr :=
-  match parseSum (4 * ts.length + 8) ts with
+  match parseSum (8 * ts.length + 8) ts with
   | some (e, []) => some e
   | _ => none
 
